@@ -15,7 +15,11 @@ static void ghost_sha_setup(const IN_gh1 *g) {
     g_tb_total = g->tb_total; g_tby_k = g->tby_k; g_tby_seen = g->tby_seen; g_tby_val = g->tby_val; g_k1 = g->k1;
     g_last_h[0] = g->last_h[0]; g_last_h[1] = g->last_h[1]; g_last_h[2] = g->last_h[2]; g_last_h[3] = g->last_h[3]; g_last_h[4] = g->last_h[4];
 }
-#if defined(VERIF_LEN_FITS)
+#if defined(VERIF_LEN_FITS) && defined(VERIF_CASE_NOBLOCK)      /* no block completes */
+#define LEN_CASE(ol, len) V_ASSUME((g_u64)(ol) + (g_u64)(len) < VERIF_BS)
+#elif defined(VERIF_LEN_FITS) && defined(VERIF_CASE_BLOCKS)     /* at least one block completes */
+#define LEN_CASE(ol, len) V_ASSUME((g_u64)(ol) + (g_u64)(len) <= 0xffffffffull && (g_u64)(ol) + (g_u64)(len) >= VERIF_BS)
+#elif defined(VERIF_LEN_FITS)
 #define LEN_CASE(ol, len) V_ASSUME((g_u64)(ol) + (g_u64)(len) <= 0xffffffffull)
 #elif defined(VERIF_LEN_WRAPS)
 #define LEN_CASE(ol, len) V_ASSUME((g_u64)(ol) + (g_u64)(len) > 0xffffffffull)
@@ -35,8 +39,10 @@ void h_sha1_update(void) {
     SHA1_Update(c, m, in.len);
 #ifdef VERIF_LEN_WRAPS
     V_COVER(((in.c.count[0] >> 3) & 63) == 1 && in.len == 0xffffffffu); V_COVER(((in.c.count[0] >> 3) & 63) == 63);
+#elif defined(VERIF_CASE_NOBLOCK)
+    V_COVER(g_tb_total == in.g.tb_total && in.len > 0); V_COVER(in.len == 0); V_COVER(c->count[1] == in.c.count[1] + 1);
 #else
-    V_COVER(g_tb_total == in.g.tb_total); V_COVER(g_tb_total == in.g.tb_total + 1 && ((in.c.count[0] >> 3) & 63) > 0);
+    V_COVER(g_tb_total == in.g.tb_total + 1 && ((in.c.count[0] >> 3) & 63) > 0);
     V_COVER(g_tb_total == in.g.tb_total + 3 && ((c->count[0] >> 3) & 63) == 5); V_COVER(g_tby_seen == in.g.tby_seen + 1 && in.len > 200);
     V_COVER(c->count[1] == in.c.count[1] + 1);
 #endif
